@@ -113,7 +113,7 @@ func (c *MJPreviewComponent) Render(w io.StringWriter) error {
 
 	previewHTML := fmt.Sprintf(
 		`<div style="display:none;font-size:1px;color:#ffffff;line-height:1px;max-height:0px;max-width:0px;opacity:0;overflow:hidden;">%s</div>`,
-		normalizedText,
+		parser.EscapeCharData(normalizedText),
 	)
 
 	_, err := w.WriteString(previewHTML)
